@@ -464,3 +464,117 @@ Definition monitor_ok (c : case) : bool :=
   && forallb (C14_ok (c_n c) (c_start c)) (c_branches c).
 
 Definition check_case (c : case) : bool := corr_ok c && monitor_ok c.
+
+(* ------------------------------------------------------------------------- *)
+(** * Part 4 — the DAG API of a Study object: Study.add_step                  *)
+(* ------------------------------------------------------------------------- *)
+
+(** [Study.add_step(step)] (core/study.py) drives the inherited DAG operations:
+    a step whose name is taken is rejected at once (ValueError, nothing
+    changed); otherwise the node is added, then, in the order of
+    [step.run["depends"]] (the [_*] / [*] suffix stripped), a dependency equal
+    to the step's own name raises ValueError, any other becomes
+    [add_edge(dependency, name)] (which raises ValueError for an unknown
+    dependency and returns silently for a duplicate); without dependencies
+    the edge [_source -> name] is added.  An exception leaves the node and
+    the edges made so far in the table. *)
+Fixpoint add_deps (g : graph) (x : nat) (deps : list nat) : rkind * graph :=
+  match deps with
+  | [] => (KOk, g)
+  | d :: ds =>
+    if Nat.eqb d x then (KValueError, g)
+    else let kg := add_edge g d x in
+         match fst kg with
+         | KOk | KRefused => add_deps (snd kg) x ds
+         | _ => kg
+         end
+  end.
+
+Definition add_step (src : nat) (g : graph) (x : nat) (deps : list nat) : rkind * graph :=
+  if mem x (keys g) then (KValueError, g)
+  else let g1 := snd (add_node g x) in
+       match deps with
+       | [] => add_edge g1 src x
+       | _ => add_deps g1 x deps
+       end.
+
+(** an operation on a Study object: an inherited DAG operation or add_step *)
+Inductive sop : Type :=
+| SPrim (o : op)
+| SAddStep (x : nat) (deps : list nat).
+
+Definition apply_sop (src : nat) (g : graph) (so : sop) : rkind * graph :=
+  match so with
+  | SPrim o => apply_op g o
+  | SAddStep x deps => add_step src g x deps
+  end.
+
+Fixpoint srun (src : nat) (g : graph) (ops : list sop) : list (rkind * graph) :=
+  match ops with
+  | [] => []
+  | o :: ops' => let kg := apply_sop src g o in kg :: srun src (snd kg) ops'
+  end.
+
+Definition model_strace (n src : nat) (g : graph) (ops : list sop) : list obs :=
+  map (fun kg => model_obs n (fst kg) (snd kg)) (srun src g ops).
+
+(** what the table has to be after [add_step]: the edges of the dependencies
+    before the first one that is the step itself or unknown *)
+Fixpoint expected_deps (g : graph) (x : nat) (deps : list nat) : graph :=
+  match deps with
+  | [] => g
+  | d :: ds =>
+    if Nat.eqb d x then g
+    else if mem d (keys g) then expected_deps (expected g (AddEdge d x)) x ds
+    else g
+  end.
+
+Definition expected_step (src : nat) (g : graph) (x : nat) (deps : list nat) : graph :=
+  if mem x (keys g) then g
+  else let g1 := expected g (AddNode x) in
+       match deps with
+       | [] => expected g1 (AddEdge src x)
+       | _ => expected_deps g1 x deps
+       end.
+
+(** the conjuncts of [step_ok] that speak about the observed state alone *)
+Definition state_ok (n : nat) (ob : obs) : bool :=
+  let g := o_adj ob in
+  wfb g && leqb (keys g) (o_vals ob)
+  && is_acyclic g
+  && Nat.eqb (o_cyc ob) 0
+  && match o_topo ob with TOk l => topo_validb g l | TErr _ => false end
+  && forallb2 (bfs_res_ok g) (seq 0 n) (o_bfs ob)
+  && forallb2 (dfs_res_ok g) (seq 0 n) (o_dfs ob).
+
+Definition sstep_ok (n src : nat) (gp : graph) (so : sop) (ob : obs) : bool :=
+  match so with
+  | SPrim o => step_ok n gp o ob
+  | SAddStep x deps =>
+    state_ok n ob                                           (* returned or raised *)
+    && graph_eqb (o_adj ob) (expected_step src gp x deps)   (* rejected name => unchanged *)
+  end.
+
+Fixpoint C14_study_ok (n src : nat) (gp : graph) (steps : list (sop * obs)) : bool :=
+  match steps with
+  | [] => true
+  | (o, ob) :: rest => sstep_ok n src gp o ob && C14_study_ok n src (o_adj ob) rest
+  end.
+
+(** a correspondence case on a fresh Study object: its table is born as
+    [_source] alone, and [_source] is name [n] of the case *)
+Record scase : Type := mkSCase {
+  sc_n : nat;
+  sc_steps : list (sop * obs)
+}.
+
+Definition study_start (n : nat) : graph := [(n, [])].
+
+Definition scorr_ok (c : scase) : bool :=
+  list_eqb obs_eqb (model_strace (sc_n c) (sc_n c) (study_start (sc_n c)) (map fst (sc_steps c)))
+           (map snd (sc_steps c)).
+
+Definition smonitor_ok (c : scase) : bool :=
+  C14_study_ok (sc_n c) (sc_n c) (study_start (sc_n c)) (sc_steps c).
+
+Definition scheck_case (c : scase) : bool := scorr_ok c && smonitor_ok c.
